@@ -55,6 +55,24 @@ def _tie(g, heavy_xyz, cut, eps=1e-6):
     return False
 
 
+def _system(index, start, mapf):
+    """Atoms (mapped with mapf) of the groups covalently coupled, directly or through others, to the
+    group on atom `start`."""
+    by_atom = {}
+    for (ak, _t), g in index.items():
+        by_atom.setdefault(tuple(g["akey"]), []).append(g)
+    seen, todo = {start}, [start]
+    while todo:
+        k = todo.pop()
+        for g in by_atom.get(k, ()):
+            for c in g["cov"]:
+                c = tuple(c)
+                if c not in seen:
+                    seen.add(c)
+                    todo.append(c)
+    return {mapf(k) for k in seen}
+
+
 def compare_heavy(run0, runT, back, viol, counts, classes, hetero_pka=False):
     """Tier 1: everything that depends on heavy atoms only."""
     names = run0.rec["names"]
@@ -100,6 +118,10 @@ def compare_heavy(run0, runT, back, viol, counts, classes, hetero_pka=False):
             return False
         i0, _ = obs.index_groups(c0)
         iT, _ = obs.index_groups(cT, keyf=lambda g: (back(tuple(g["akey"])), g["type"]))
+        # ligand groups that exist in one frame only because of ring typing (a known mechanism): with
+        # common charge centres their coupled partners are centred differently as a consequence
+        ring_only = {k[0] for k, g in i0.items() if k not in iT and g["aid"][0] != "atom" and g["type"] != "ION" and in_ring(k[0])}
+        ring_only |= {k[0] for k, h in iT.items() if k not in i0 and h["aid"][0] != "atom" and h["type"] != "ION" and in_ring(k[0])}
         for k, g in i0.items():
             protein_or_ion = g["aid"][0] == "atom" or g["type"] == "ION"
             if k not in iT:
@@ -135,6 +157,11 @@ def compare_heavy(run0, runT, back, viol, counts, classes, hetero_pka=False):
                     # is centred with whichever carbon comes first in the bond list
                     viol.append({"cls": "cterm-carbon-choice-order-dependent", "msg": "%s: %s (terminal oxygen bonded to %d carbons) %s %.6g vs %.6g in the moved frame" % (
                         name, g["label"], ncarb, fld, a, b)})
+                    break
+                sys0, sysT = _system(i0, tuple(g["akey"]), lambda c: c), _system(iT, tuple(h["akey"]), back)
+                if not protein_or_ion and (g.get("ccc") or h.get("ccc")) and (sys0 ^ sysT) and (sys0 ^ sysT) <= ring_only:
+                    viol.append({"cls": "ligand-ring-typing-frame-dependent", "msg": "%s: %s shares a common charge centre with ring group(s) %r that exist in one frame only: %s %.6g vs %.6g" % (
+                        name, g["label"], sorted(sys0 ^ sysT)[:2], fld, a, b)})
                     break
                 viol.append({"cls": "pose-changes-desolvation", "msg": "%s: %s %s %.9g vs %.9g in the moved frame" % (name, g["label"], fld, a, b)})
         for k, h in iT.items():
